@@ -840,6 +840,21 @@ func (vc *VC) specCall(env *Env, x *SCall) (Term, types.Type) {
 		v, vt := vc.specExpr(env, x.Args[0])
 		r := vc.rootOfValue(env, v, vt)
 		return And(Le(env.old.alloc, r), Lt(r, env.st.alloc)), boolT
+	case "caswon":
+		// caswon(&x, a, b): the last atomic write this function performed on x was a successful CompareAndSwap(&x, a, b)
+		need(3)
+		p, _ := vc.specExpr(env, x.Args[0])
+		la, ok1 := x.Args[1].(*SLit)
+		lb, ok2 := x.Args[2].(*SLit)
+		if !ok1 || !ok2 {
+			env.fail("caswon needs literal old/new values")
+		}
+		name := "W_cas_" + la.Val + "_" + lb.Val
+		if !vc.casNames[name] {
+			env.fail("caswon: this function performs no CompareAndSwap(_, %s, %s)", la.Val, lb.Val)
+		}
+		arr := vc.get(env.st, name, casSort)
+		return Select(Select(arr, Root(p)), PathOf(p)), boolT
 	case "allocated":
 		need(1)
 		v, vt := vc.specExpr(env, x.Args[0])
